@@ -108,6 +108,12 @@ def classify(failure, op, ls, shadow):
         failure["kf1_analysis"] = why
         if ok:
             return kf.known("KF1", "a task evaluated before its producer raised on the stale input")
+        # the inversion may lie among the tasks that already ran (a task ran before its producer, then a consumer of its
+        # stale result raised): same analysis on the observed order
+        ok, why2, inv = kf.kf1(ls.runner.mgr, failure["run_order"], shadow, ls.runner)
+        failure["kf1_analysis"] = why + "; observed order: " + why2
+        if ok:
+            return kf.known("KF1", "a task downstream of one evaluated before its producer raised on the stale value")
     return None
 
 
